@@ -331,3 +331,19 @@ reg(Prop("C04", "Incremental hash and redundant board representations never drif
          assumptions=["Rep b0 and hd (hashes b0) = calc_hash b0 at the start (established by ResetHash: C04_reset)",
                       "arbitrary Zobrist tables (Section variable); the engine's tables are regenerated into Gen/Zobrist.v for the correspondence"],
          design_ref="5/C04"))
+reg(Prop("C15", "Transposition table returns only what was stored for that key", "Properties/C15.v",
+         [StreamCfg("c15", 4000, 150000, judge="judge_c15",
+                    rule="operation sequences (store / probe / clear / resize+clear / resize) of length 5..400 on tables of "
+                         "1..100, ~1000 and 32768 buckets over a pool of 6..12 keys drawn to collide (one bucket with more "
+                         "signatures than lanes, same bucket+signature under another hash, same signature in another bucket, "
+                         "signature 0), depths/plies 0..63, all bound types, generations incl. 254->255->0, scores around "
+                         "+-(Inf+-64), +-Inv and ordinary; 6% malformed (out-of-range depth/ply/type/score, invalid sizes); "
+                         "every mutating op is followed by a probe of all pool keys; non-trivial = at least 3 stores"),
+          StreamCfg("m64", 200000, 10000000, judge="judge_m64",
+                    rule="match64 through the VerifMatch64 hook: lanes drawn equal to the key, one bit off, key+1 (borrow "
+                         "neighbour), key^0x8000, boundary patterns, random; 0..4 matching lanes")],
+         trusted=["hook transp/export_verif.go (VerifMatch64, VerifConsts)",
+                  "modelled, not verified: the unsafe re-slicing / aligned allocation of transp.Resize (list prefix / fresh zeroes)"],
+         assumptions=["stores inside the property's domain: depth 0..63, ply 0..63, bound type 0..2, |score| <= 32000 (int16 no-wrap), table of 1..2^31 buckets",
+                      "keys whose 16 signature bits are zero are excluded from the no-phantom and frame clauses (read-your-write is proved for them too)"],
+         design_ref="5/C15"))
